@@ -216,6 +216,21 @@ func runScript(sc *script, sum *summary) {
 	isKind := func(kind string) func(vrt.Op) bool { return func(op vrt.Op) bool { return op.Kind == kind } }
 	atWait := func(op vrt.Op) bool { return op.Kind == "sys" && op.Tag == "epoll_wait" }
 	mains := map[string]bool{evT: true, accT: true, "stopper": true}
+	begun := map[string]string{} // connection -> adder thread that has begun its AddConn
+	// descriptors the engine is responsible for: accepted ones, and added ones whose AddConn call has returned (while the
+	// call is in flight the descriptor still belongs to the caller; a refused AddConn closes it)
+	handed := func() map[string]int {
+		out := map[string]int{}
+		for name, fd := range fds {
+			if th, ok := begun[name]; ok {
+				if t := s.Thread(th); t != nil && !t.Exited() {
+					continue
+				}
+			}
+			out[name] = fd
+		}
+		return out
+	}
 	stopperSpawned := false
 	stopRet := false
 	spawnStopper := func() {
@@ -227,7 +242,7 @@ func runScript(sc *script, sum *summary) {
 			tr.Emit(hlib.Ev{"ev": "stopcall"})
 			g.Stop()
 			stopRet = true
-			tr.Emit(hlib.Ev{"ev": "simret", "stopdone": true, "registered": nbio.VerifRegistered(g), "openfds": openFds(fds),
+			tr.Emit(hlib.Ev{"ev": "simret", "stopdone": true, "registered": nbio.VerifRegistered(g), "openfds": openFds(handed()),
 				"opens": atomic.LoadInt32(&opens), "closes": atomic.LoadInt32(&closes)})
 		})
 	}
@@ -283,16 +298,38 @@ func runScript(sc *script, sum *summary) {
 			if t := s.Thread(name); !t.Exited() {
 				drift(i, st, "loop did not exit (parked at %s)", t.Pending())
 			}
-		case "DAdd":
+		case "DAddBegin":
+			// AddConn is called and passes its first lock acquisition (the "engine stopped?" check): whatever it does in that
+			// critical section happens now, the rest when the DAdd step comes
 			dialN++
 			name := "adder" + strconv.Itoa(dialN)
 			c := mk()
 			fds[st.C] = nbio.VerifFd(c)
+			who := st.C
 			s.Spawn(name, func() {
 				if _, err := g.AddConn(c); err != nil {
-					tr.Emit(hlib.Ev{"ev": "addrefused", "c": st.C, "err": err.Error()})
+					tr.Emit(hlib.Ev{"ev": "addrefused", "c": who, "err": err.Error()})
 				}
 			})
+			begun[st.C] = name
+			if err := s.PassAllTransparent(name); err == nil && s.Runnable(name) {
+				s.Step(name)
+			}
+		case "DAdd":
+			name, ok := begun[st.C]
+			if !ok {
+				dialN++
+				name = "adder" + strconv.Itoa(dialN)
+				c := mk()
+				fds[st.C] = nbio.VerifFd(c)
+				who := st.C
+				s.Spawn(name, func() {
+					if _, err := g.AddConn(c); err != nil {
+						tr.Emit(hlib.Ev{"ev": "addrefused", "c": who, "err": err.Error()})
+					}
+				})
+				begun[st.C] = name
+			}
 			runUntil(name, func(vrt.Op) bool { return false })
 		case "PClose":
 			if fd, ok := fds[st.C]; ok {
